@@ -93,9 +93,7 @@ class sint(metaclass=_IntMeta):
         if a:
             return int(x, *a)
         if isinstance(x, core.SNum):
-            if x.isint:
-                return x
-            raise core.Unsupported("int() of symbolic real")
+            return x if x.isint else x.trunc()
         if isinstance(x, text.SText):
             raise core.Unsupported("int() of symbolic text")
         return int(x)
@@ -247,8 +245,9 @@ class NPProxy:
         if dtype is None or dtype is float or dtype is sfloat or dtype == 'float':
             return object
         try:
-            if _np.dtype(dtype).kind == 'f':
+            if _np.dtype(dtype).kind == 'f' and _np.dtype(dtype).itemsize >= 8:
                 return object
+            # narrower floats stay real buffers: storing a symbolic value into one is refused (rounding is not modelled)
         except TypeError:
             pass
         return dtype
